@@ -1,5 +1,6 @@
 (* C09 — the LRU cache behaves as a bounded least-recently-used map.  Statements only. *)
 From PGV Require Import Base.Bytes Spec.LRUSpec Model.LRU Proofs.LRUProofs Proofs.LRUTimeProofs Proofs.C09Final.
+From PGV Require Import Base.MiniGo Extracted.SourceFns Model.GoLRU Proofs.GoLRUProofs.
 Open Scope Z_scope.
 
 (* Every history of Store/Load/Delete/Len on a cache of capacity c >= 0: the model of cache.go
@@ -47,3 +48,26 @@ Example C09_example :
   snd (run (init 2) ops) = [RNone; RNone; RNone; RNone; RLoad (Some 2%N); RLoad None; RNone; RLen 1]
   /\ log (fst (run (init 2) ops)) = [(2, 1); (3, 1)]%N.
 Proof. vm_compute. split; reflexivity. Qed.
+
+(* FROM THE SOURCE TEXT.  fn_LRUCache_Store / Load / Delete / delete / Len are the go/ast syntax
+   trees of the methods of valid/cache.go, regenerated from /repo on every run
+   (Extracted/SourceFns.v).  Under the semantics of Model/GoLRU.v, executing those bodies on any
+   state that satisfies the cache invariant gives exactly the model's step, and therefore every
+   history, from every capacity c >= 0, run through the extracted bodies equals the model's run —
+   to which all the theorems above apply.  A change to cache.go that changes what a method computes
+   (or uses a statement form the semantics does not know) makes these proofs fail. *)
+Theorem C09_store_from_source : forall c a k v, Inv c a ->
+  go_store fn_LRUCache_delete fn_LRUCache_Store k v c = Some (store k v c).
+Proof. exact go_store_model. Qed.
+Theorem C09_load_from_source : forall c a k, Inv c a ->
+  go_load fn_LRUCache_delete fn_LRUCache_Load k c = Some (load k c).
+Proof. exact go_load_model. Qed.
+Theorem C09_delete_from_source : forall c a k, Inv c a ->
+  go_delete fn_LRUCache_delete fn_LRUCache_Delete k c = Some (del k c).
+Proof. exact go_delete_model. Qed.
+Theorem C09_len_from_source : forall c, go_len fn_LRUCache_delete fn_LRUCache_Len c = Some (len c).
+Proof. exact go_len_model. Qed.
+Theorem C09_histories_from_source : forall (c : Z) (ops : list op), 0 <= c ->
+  go_run (init c) ops = Some (run (init c) ops).
+Proof. exact go_run_init. Qed.
+Print Assumptions C09_histories_from_source.
